@@ -396,4 +396,4 @@ mod tests {
 
 #[cfg(kani)]
 #[path = "/verif/harness/may_queue/mpsc_list_v1.rs"]
-mod verif_kani;
+pub(crate) mod verif_kani;
